@@ -74,6 +74,8 @@ class Axis:
             return None
         if name == "get_loc":
             return BoundLib("tbl.axis.get_loc", self)
+        if name in ("max", "min"):
+            return BoundLib("tbl.axis." + name, self)
         raise ev.err(f"axis attribute {name}", node, mod)
 
     def sym_iter(self, ev, n, mod):
@@ -374,6 +376,10 @@ def intrinsics(out=None):
         return a[0].with_axis(ev, which, a[1] if len(a) > 1 else k.get("labels"))
 
     return {
+        "tbl.axis.max": lambda ev, a, k: sp.Function("MAX")(a[0].sym), "tbl.axis.min": lambda ev, a, k: sp.Function("MIN")(a[0].sym),
+        "numpy.ptp": lambda ev, a, k: sp.Function("MAX")(as_sym(a[0])) - sp.Function("MIN")(as_sym(a[0])),
+        "numpy.max": lambda ev, a, k: sp.Function("MAX")(as_sym(a[0])), "numpy.min": lambda ev, a, k: sp.Function("MIN")(as_sym(a[0])),
+        "numpy.amax": lambda ev, a, k: sp.Function("MAX")(as_sym(a[0])), "numpy.amin": lambda ev, a, k: sp.Function("MIN")(as_sym(a[0])),
         "tbl.same": same, "tbl.axis.values": axis_values, "tbl.axis.same": same, "tbl.axis.astype": axis_astype, "tbl.axis.map": axis_map,
         "tbl.series.values": lambda ev, a, k: a[0].line, "tbl.series.same": same, "tbl.table.values": lambda ev, a, k: (k.all(), a[0].values())[1],
         "tbl.grid.transpose": grid_transpose, "tbl.table.transpose": table_transpose, "tbl.table.set_axis": table_set_axis,
